@@ -45,7 +45,9 @@ var bytesPool = sync.Pool{
 //   - each fieldmask always starts with root path "$"
 //   - path "*" indicates all subsequent path of the fieldmask shares the same sub fieldmask
 func (fm *FieldMask) MarshalJSON() ([]byte, error) {
-	if fm == nil {
+	if !fm.Exist() {
+		// nil, or no path has been set: everything passes.
+		// (type "Invalid" would be rejected by UnmarshalJSON)
 		return []byte("null"), nil
 	}
 	buf := bytesPool.Get().(*[]byte)
